@@ -298,15 +298,17 @@ func codeLiteralVariants(r *RNG, eco string, s string, capN int) []string {
 	var out []string
 	runs := digitRuns(s)
 	for _, c := range codeClusters(eco) {
-		if len(runs) == 0 {
-			break
+		// every digit run in turn (a sentinel value matters in the slot it is a sentinel for), with
+		// the text up to that run as a sibling (the same version without what follows)
+		for _, run := range runs {
+			for _, m := range c {
+				out = append(out, s[:run[0]]+m+s[run[1]:])
+			}
+			// one leading-zero spelling per cluster
+			out = append(out, s[:run[0]]+"0"+c[len(c)/2]+s[run[1]:])
+			v := s[:run[0]] + c[len(c)/2] + s[run[1]:]
+			out = append(out, tokenPrefixes(v)...)
 		}
-		run := runs[r.Intn(len(runs))]
-		for _, m := range c {
-			out = append(out, s[:run[0]]+m+s[run[1]:])
-		}
-		// one leading-zero spelling per cluster
-		out = append(out, s[:run[0]]+"0"+c[len(c)/2]+s[run[1]:])
 	}
 	words := newStrsFor(eco)
 	toks := tokens(s)
